@@ -8,8 +8,11 @@ package iterdrv
 //	  KeyValuePairing  Key() read before and after Value() of the same element differ
 //	  ForEachVisits    what ForEach visited when the callback fails at its (k+1)-th call, for every k
 //	  ForEachError     ForEach returns that error (nil when the callback never fails)
-//	  SourceModified   a slice handed to FromSlice changed
+//	  SourceModified   a slice handed to FromSlice changed (the whole backing array is compared: the slices are laid out
+//	                   with len = cap or as a window of a longer array that is the source of a second iterator, too)
 //	  Panic / Hang     the library panicked / did not come back
+//	Every case is executed once per element-type variant (int; any and *box with one integer of the model coded as nil):
+//	the P level is compared for each of them after decoding, the I level for int only.
 //	I level (a "drift" finding: the implementation-shaped model no longer describes the code):
 //	  the user-function calls made while constructing and during each Value() / Next(), and what the exhausted
 //	  iterator answers when asked once more.
@@ -18,6 +21,8 @@ import (
 	"encoding/json"
 	"fmt"
 	"os"
+	"slices"
+	"strings"
 	"testing"
 	"time"
 
@@ -40,21 +45,32 @@ type genCase struct {
 	Steps  []stepObs  `json:"steps"`
 	Post   postObs    `json:"post"`
 	Repoll string     `json:"repoll"`
+	Ci     *int       `json:"ci"` // --replay of a stored case: the index it had (the layout of the source slices depends on it)
 }
 
 type finding struct {
 	T    string `json:"t"` // "pviol" | "drift" | "harness"
 	Case int    `json:"case"`
 	Kind string `json:"kind"`
+	Elem string `json:"elem"` // the element-type variant the case was executed over
 	Expr *Expr  `json:"expr,omitempty"`
 	Pred string `json:"pred"`
 	K    int    `json:"k"` // ForEach: index of the failing callback call
 	Want any    `json:"want"`
 	Got  any    `json:"got"`
+	Src  string `json:"src,omitempty"` // SourceModified: how the modified slice was laid out
+}
+
+type elemStats struct {
+	Elem     string `json:"elem"`
+	Cases    int    `json:"cases"`    // cases executed over this element type
+	NilCases int    `json:"nilcases"` // ... in which a nil element was handed to / delivered by the library
+	Built    int    `json:"built"`
 }
 
 type replayStats struct {
 	Cases, Built, Steps, ForEachRuns int
+	Elems                            []elemStats
 }
 
 const hangAfter = 30 * time.Second
@@ -74,13 +90,36 @@ func withWatchdog(out *vio.Out, onHang func() any, f func()) {
 	}
 }
 
-func judgeCase(ci int, c *genCase, out *vio.Out, st *replayStats) {
+// judgeCase executes case ci over the element-type variant w (the vi-th one).  The layout of the source slices changes
+// from run to run (the drain, then every ForEach run), starting at a point that depends on the case and the variant.
+func judgeCase(ci, vi int, w variant, c *genCase, out *vio.Out, st *replayStats, iLevel bool) {
 	emit := func(level, pred string, k int, want, got any) {
-		out.Put(finding{T: level, Case: ci, Kind: c.Kind, Expr: c.Expr, Pred: pred, K: k, Want: want, Got: got})
+		out.Put(finding{T: level, Case: ci, Kind: c.Kind, Elem: w.Name(), Expr: c.Expr, Pred: pred, K: k, Want: want, Got: got})
 	}
+	srcModified := func(k int, src []srcObs) {
+		f := finding{T: "pviol", Case: ci, Kind: c.Kind, Elem: w.Name(), Expr: c.Expr, Pred: "SourceModified", K: k}
+		if len(src) > 0 {
+			f.Want, f.Got, f.Src = src[0].Was, src[0].Is, "len = cap"
+			if src[0].Spare {
+				f.Src = fmt.Sprintf("the first %d elements of a longer array handed to FromSlice; the whole array is compared", len(src[0].Was)-len(sentinels))
+			}
+		}
+		out.Put(f)
+	}
+	es := &st.Elems[vi]
+	es.Cases++
+	nils := 0
+	defer func() {
+		if nils > 0 {
+			es.NilCases++
+		}
+	}()
+	mode := func(r int) int { return (ci + vi + r) % 4 }
 	// ---- the documented loop
-	o := observe(c.Kind, c.Expr, len(c.List)+2)
+	o := w.observe(mode(0), c.Kind, c.Expr, len(c.List)+2)
+	nils += o.Nils
 	st.Built++
+	es.Built++
 	st.Steps += len(o.Steps)
 	switch {
 	case o.Panic != "":
@@ -97,12 +136,14 @@ func judgeCase(ci int, c *genCase, out *vio.Out, st *replayStats) {
 		}
 	}
 	if !o.SrcOK {
-		emit("pviol", "SourceModified", 0, nil, nil)
+		srcModified(0, o.Src)
 	}
 	// ---- ForEach, failing at every position and never
 	for k := range c.Fe {
-		f := forEach(c.Kind, c.Expr, k, len(c.List)+2)
+		f := w.forEach(mode(k+1), c.Kind, c.Expr, k, len(c.List)+2)
+		nils += f.Nils
 		st.Built++
+		es.Built++
 		st.ForEachRuns++
 		want := "nil"
 		if c.Fe[k].Failed {
@@ -117,11 +158,11 @@ func judgeCase(ci int, c *genCase, out *vio.Out, st *replayStats) {
 			emit("pviol", "ForEachError", k, want, f.Err)
 		}
 		if !f.SrcOK {
-			emit("pviol", "SourceModified", k, nil, nil)
+			srcModified(k, f.Src)
 		}
 	}
-	// ---- finer than the statement: calls and the exhausted iterator (only when the P level agrees)
-	if o.Panic != "" || !itemsEq(o.values(), c.List) {
+	// ---- finer than the statement: calls and the exhausted iterator (only when the P level agrees; element type int)
+	if !iLevel || o.Panic != "" || !itemsEq(o.values(), c.List) {
 		return
 	}
 	if !callsEq(o.Cc, c.Cc) {
@@ -157,7 +198,30 @@ func TestReplay(t *testing.T) {
 		t.Fatal(err)
 	}
 	defer out.Close()
+	for _, d := range codecSelfTest() {
+		out.Put(finding{T: "harness", Pred: "Codec", Got: d})
+	}
+	// VERIF_ELEMS: "all" or the names of the variants to run (comma separated); VERIF_ELEM_EVERY = n: the variants other
+	// than int run on the cases of depth <= 1 (a source alone, one combinator over sources) and on every n-th other case
+	vars := allVariants()
+	if sel := vio.Env("VERIF_ELEMS", "all"); sel != "all" {
+		keep := []variant{}
+		for _, w := range vars {
+			if slices.Contains(strings.Split(sel, ","), w.Name()) {
+				keep = append(keep, w)
+			}
+		}
+		if len(keep) == 0 {
+			t.Fatalf("VERIF_ELEMS=%q names no element-type variant", sel)
+		}
+		vars = keep
+	}
+	every := max(vio.EnvInt("VERIF_ELEM_EVERY", 1), 1)
+	seed := vio.EnvInt("VERIF_SEED", 1)
 	st := &replayStats{}
+	for _, w := range vars {
+		st.Elems = append(st.Elems, elemStats{Elem: w.Name()})
+	}
 	ci := 0
 	tables := 0
 	err = vio.ReadLines(vio.Env("VERIF_IN", ""), func(b []byte) error {
@@ -182,18 +246,27 @@ func TestReplay(t *testing.T) {
 		if err := json.Unmarshal(b, &c); err != nil {
 			return err
 		}
-		idx := ci
+		idx, at := ci, ci
 		ci++
-		withWatchdog(out, func() any {
-			return finding{T: "pviol", Case: idx, Kind: c.Kind, Expr: c.Expr, Pred: "Hang", Want: c.List, Got: "no answer within " + hangAfter.String()}
-		}, func() { judgeCase(idx, &c, out, st) })
+		if c.Ci != nil {
+			at = *c.Ci
+		}
+		small := depthOf(c.Expr) <= 1
+		for vi, w := range vars {
+			if w.Name() != "int" && !small && (at+vi+seed)%every != 0 {
+				continue
+			}
+			withWatchdog(out, func() any {
+				return finding{T: "pviol", Case: idx, Kind: c.Kind, Elem: w.Name(), Expr: c.Expr, Pred: "Hang", Want: c.List, Got: "no answer within " + hangAfter.String()}
+			}, func() { judgeCase(at, vi, w, &c, out, st, w.Name() == "int") })
+		}
 		st.Cases++
 		return nil
 	})
 	if err != nil {
 		t.Fatal(err)
 	}
-	out.Put(map[string]any{"t": "stats", "cases": st.Cases, "built": st.Built, "steps": st.Steps, "foreach": st.ForEachRuns, "tables": tables})
+	out.Put(map[string]any{"t": "stats", "cases": st.Cases, "built": st.Built, "steps": st.Steps, "foreach": st.ForEachRuns, "tables": tables, "elems": st.Elems})
 }
 
 // ---------------------------------------------------------------------------- the tables must be TLC's tables
